@@ -87,7 +87,9 @@ def run(ctx):
         owners = {x["page_path"] for x in rows if (x["zid"] == v if k == "ZID" else x["properties"].get(k) == v)}
         if owners != {page}:
             ctx.machinery(f"designed universe does not match MC_Action!Owner: {k} {v} is owned by {owners}")
-    pool = cases if not ctx.quick else rng.sample(cases, min(len(cases), 2500))
+    # thorough: TLC checks OptionLaw on all ~200k cases; the real CLI runs a 60k sample of them (each case is one `main()` call,
+    # ~100 / s on 16 cores - the full set did not finish in two hours next to other work)
+    pool = rng.sample(cases, min(len(cases), 2500 if ctx.quick else 60000))
     jobs = [(str(env.zdir), pool[i:i + 80]) for i in range(0, len(pool), 80)]
     bad = [b for part in par.pmap(_chunk, jobs, chunk=1) for b in part]
     groups = {}
@@ -105,7 +107,9 @@ def run(ctx):
     ctx.set("evaluations", len(pool))
     ctx.add("traces_validated_against_impl", len(pool))
     ctx.set("distinct_nontrivial", len(pool))
-    ctx.set("rule", "cases = every (line, page type, option) TLC enumerated (sampled in quick); all distinct")
+    ctx.set("cases_enumerated_by_tlc", len(cases))
+    ctx.set("rule", "cases = (line, page type, option) triples TLC enumerated (OptionLaw checked on all of them), a random sample "
+                    "of 2,500 (quick) / 60,000 (thorough) run through the real CLI; all distinct")
     ctx.sample({"line": pool[0]["text"], "zoq": pool[0]["zoq"], "opt": pool[0]["opt"], "expected": pool[0]["exp"]})
     ctx.assume("ECHO texts are not compared; SEARCH arguments are compared without zorg's regex prefix / suffix; `open` is stubbed")
     env.cleanup()
